@@ -68,7 +68,53 @@ type MTarget struct {
 	JA    []any              `plenc:"45"`
 }
 
+// MNamed: a named type of every basic kind, each followed in memory by a small
+// plain field (a codec that reads or writes the wrong width for a named kind
+// touches its neighbour).
+type (
+	NU8   uint8
+	NU16  uint16
+	NU32  uint32
+	NU64  uint64
+	NI8   int8
+	NI16  int16
+	NI32  int32
+	NI64  int64
+	NBool bool
+	NF32  float32
+	NF64  float64
+	NUint uint
+)
+
+type MNamed struct {
+	A  NU8             `plenc:"1"`
+	a  uint8           //nolint
+	B  NU16            `plenc:"2"`
+	Bn uint16          `plenc:"3"`
+	C  NU32            `plenc:"4"`
+	Cn uint32          `plenc:"5"`
+	D  NI8             `plenc:"6"`
+	Dn int8            `plenc:"7"`
+	E  NI16            `plenc:"8"`
+	En int16           `plenc:"9"`
+	F  NI32            `plenc:"10"`
+	Fn int32           `plenc:"11"`
+	G  NBool           `plenc:"12"`
+	Gn bool            `plenc:"13"`
+	H  NF32            `plenc:"14"`
+	Hn float32         `plenc:"15"`
+	I  NU64            `plenc:"16"`
+	J  NI64            `plenc:"17"`
+	K  NF64            `plenc:"18"`
+	L  NUint           `plenc:"19"`
+	An uint8           `plenc:"20"`
+	Ps *NU16           `plenc:"21"`
+	Sl []NU16          `plenc:"22"`
+	Mp map[string]NU16 `plenc:"23"`
+}
+
 func init() {
+	reg("MNamed", "FM", MNamed{})
 	reg("MTarget", "FM", MTarget{})
 	reg("MInner", "FM", MInner{})
 }
